@@ -210,6 +210,38 @@ def run_case(cls, params, rec):
 	rec.held(cls, params, nontrivial=has_nl and differs)
 
 
+def two_pool_spec(r, A, L, act):
+	for _ in range(50):
+		c1, c2 = r.randint(1, 3), r.randint(1, 4)
+		k1, k2 = r.randint(2, 4), r.randint(2, 3)
+		spec = [{"t": "conv", "cin": A, "cout": c1, "k": r.randint(1, 3),
+			"stride": 1, "dil": r.choice([1, 2, 3]), "pad": 0},
+			{"t": "act", "name": act},
+			{"t": "maxpool", "k": k1, "stride": r.randint(1, k1), "pad": 0,
+			"dil": 1, "ceil": False},
+			{"t": "conv", "cin": c1, "cout": c2, "k": r.randint(1, 3),
+			"stride": 1, "dil": r.choice([1, 2]), "pad": r.choice([0, 1, 3])},
+			{"t": "act", "name": r.choice(["ReLU", "ReLU", "LeakyReLU",
+			"ELU"])},
+			{"t": "maxpool", "k": k2, "stride": r.randint(1, k2),
+			"pad": r.choice([0, k2 // 2]), "dil": 1, "ceil": False},
+			{"t": "flatten"}]
+		C, Lc, ok = A, L, True
+		for s_ in spec[:-1]:
+			Lo = dls.out_len(s_, C, Lc)
+			if Lo is None:
+				ok = False
+				break
+			Lc = Lo
+			if s_["t"] == "conv":
+				C = s_["cout"]
+		if ok:
+			spec.append({"t": "linear", "in": C * Lc, "out": r.randint(1,
+				3)})
+			return spec
+	return dls.gen_arch(r, A, L, maxpool="any", force_act=act)
+
+
 def plan(tier, seed):
 	n_arch = 160 if tier == "quick" else 5000
 	per = 8 if tier == "quick" else 50
@@ -228,13 +260,18 @@ def gen_case(seed, k):
 	maxpool = ("none", "disjoint", "any", "any")[mode]
 	force = dls.ACT_NAMES[k % len(dls.ACT_NAMES)]
 	spec = dls.gen_arch(r, A, L, maxpool=maxpool, force_act=force)
+	if k % 8 == 5:
+		# two max-pooling layers in sequence, integer weights (tied and
+		# coinciding activations are frequent): the later pool's fallback
+		# to its ordinary gradient must not disturb the earlier pool's rule
+		spec = two_pool_spec(r, A, L, force)
 	n = r.randint(1, 3)
 	ns = r.randint(1, 6)
 	refs = r.choice(["given", "given", "dinuc", "shuffle"])
 	if L < 8 and refs == "dinuc":
 		refs = "shuffle"
 	return {"A": A, "L": L, "spec": spec, "wseed": r.randrange(10 ** 6),
-		"weights": "int" if k % 7 == 3 else "float", "n": n,
+		"weights": "int" if (k % 7 == 3 or k % 8 == 5) else "float", "n": n,
 		"n_shuffles": ns, "batch_size": r.choice([1, 2, 3, n * ns,
 		n * ns + 1, 32]), "target": r.randrange(dls.n_targets(spec)),
 		"refs": refs, "near": r.random() < 0.4, "iseed": r.randrange(10 ** 6),
@@ -246,6 +283,7 @@ def gen_case(seed, k):
 def run_unit(unit, rec):
 	for k in range(unit["k0"], unit["k1"]):
 		params = gen_case(unit["seed"], k)
-		cls = "arch-" + ("maxpool" if any(s["t"] == "maxpool"
-			for s in params["spec"]) else "plain")
+		npool = sum(1 for s in params["spec"] if s["t"] == "maxpool")
+		cls = "arch-" + ("two-maxpool" if npool >= 2 else "maxpool" if npool
+			else "plain")
 		run_case(cls, params, rec)
